@@ -43,13 +43,15 @@ pub fn safe_unlimited(p: &GenProg) -> bool {
 pub struct Probe {
     pub inner: ChiaDialect,
     pub exempt_guard: Cell<bool>,
+    /// the cost-exempt ("grandfathered") operator set was selected although NEW_COST_MODEL is not set
+    pub bad_exempt: Cell<bool>,
     pub known_guard: Cell<u32>,
     pub ops: Cell<u32>,
 }
 
 impl Probe {
     pub fn new(bits: u32) -> Self {
-        Probe { inner: ChiaDialect::new(flags(bits)), exempt_guard: Cell::new(false), known_guard: Cell::new(0), ops: Cell::new(0) }
+        Probe { inner: ChiaDialect::new(flags(bits)), exempt_guard: Cell::new(false), bad_exempt: Cell::new(false), known_guard: Cell::new(0), ops: Cell::new(0) }
     }
 }
 
@@ -66,7 +68,12 @@ impl Dialect for Probe {
     fn softfork_extension(&self, ext: u32) -> OperatorSet {
         let r = self.inner.softfork_extension(ext);
         if r == OperatorSet::PreHardFork {
-            self.exempt_guard.set(true);
+            // guards are exempt from cost agreement only under the new cost model (chia_dialect.rs, softfork_extension)
+            if self.inner.flags().contains(ClvmFlags::NEW_COST_MODEL) {
+                self.exempt_guard.set(true);
+            } else {
+                self.bad_exempt.set(true);
+            }
         }
         if r != OperatorSet::Default {
             self.known_guard.set(self.known_guard.get() + 1);
@@ -92,6 +99,7 @@ pub struct RunRes {
     pub out: Out,
     pub counts: (usize, usize, usize),
     pub exempt: bool,
+    pub bad_exempt: bool,
     pub known_guards: u32,
     pub ops: u32,
 }
@@ -107,7 +115,7 @@ pub fn run_fresh(i: &mut Interner, prog: &Dag, env: &Dag, bits: u32, budget: u64
     let d = Probe::new(bits);
     let r = guard(|| run_program(&mut a, &d, p, e, budget));
     let out = to_out(&a, i, r);
-    Some(RunRes { out, counts: crate::util::counts(&a), exempt: d.exempt_guard.get(), known_guards: d.known_guard.get(), ops: d.ops.get() })
+    Some(RunRes { out, counts: crate::util::counts(&a), exempt: d.exempt_guard.get(), bad_exempt: d.bad_exempt.get(), known_guards: d.known_guard.get(), ops: d.ops.get() })
 }
 
 pub fn show_case(c: &ProgCase) -> String {
@@ -175,5 +183,5 @@ pub fn run_hiding(i: &mut Interner, prog: &Dag, env: &Dag, bits: u32, budget: u6
     let d = Hiding::new(bits);
     let r = guard(|| run_program(&mut a, &d, p, e, budget));
     let out = to_out(&a, i, r);
-    Some(RunRes { out, counts: crate::util::counts(&a), exempt: false, known_guards: 0, ops: 0 })
+    Some(RunRes { out, counts: crate::util::counts(&a), exempt: false, bad_exempt: false, known_guards: 0, ops: 0 })
 }
